@@ -7,7 +7,7 @@ import verif
 META = {
     "level": "model_checking",
     "engine": "afc",
-    "technique": "TLA+ spec BiArc (one action per atomic access of BiArc::try_clone/get_if_shared/drop) model-checked with TLC; edge-covering schedules of its state graph replayed on the real Lender/Loan under the yield-point scheduler with a tracking allocator as memory-safety oracle (spec->impl conformance)",
+    "technique": "TLA+ spec BiArc (one action per atomic access of BiArc::try_clone/get_if_shared/drop) model-checked with TLC; edge-covering schedules of its state graph replayed on the real Lender/Loan under the yield-point scheduler with a tracking allocator as memory-safety oracle (spec->impl conformance); complemented by free-running races of the same operations on real unscheduled threads with the same oracle (stress, not exhaustive)",
     "text": "TLC checks the two-handle arc (lender thread: lend x3, drop; two loan threads: get_mut, use, get_mut, use, drop; every interleaving) for: at most one live loan, exclusive use of the exclusive data, no access after the free, no access for a get_mut after drop(Lender) returned, freed at most once and not before both handles are gone, freed exactly once at the end; the spec mutant 'free when the old state was SHARED' must be rejected. Every transition of the state graph is executed on the real types: each path is a schedule of yield points (swap in try_clone, load in get_if_shared, swap and free in drop); payloads record their drop, freed blocks are poisoned and quarantined by the harness allocator. VIOLATION on: second live loan, concurrent exclusive use, access granted after revocation, touching or reading freed data, double free, leak / payload not dropped exactly once.",
     "note": "Bounds: 1 lender thread with <=3 lend() calls, 2 loan threads with 2 get_mut() each; thorough adds 3 loan threads x 4 lends; additionally free-running races (real unscheduled threads, spin barrier with jitter, 4 s per pair quick / 20 s thorough) of the pairs drop(Lender)||drop(Loan), lend||lend, lend||drop(Loan) with the payload-drop oracle, which reach interleavings inside a read-modify-write split into separate accesses (not exhaustive: a stress complement to the schedules); and the AfcMem schedules (memory::State, 2 readers) with the allocator verdict. Sequentially consistent interleavings only (DESIGN §9). Trusts the yield points in lender.rs and the allocator's quarantine (no reuse of a freed block during a schedule).",
 }
